@@ -1423,6 +1423,11 @@ func c13RetryAfterForms(r *Run, fn *ssa.Function) {
 	var srcs []c13DateSource
 	var dateWhere string
 	for _, l := range locals {
+		if c13ConstLocal(l.a) {
+			// not a form of Retry-After: a constant override.  Where it may be handed to set is decided
+			// by C13.R1 (the 408 path: a constant ≤ 0 only) and C13.R2 (429/503: nil, seconds or date only)
+			continue
+		}
 		if root, n := c13SecondsRoot(l.a); root != nil {
 			nSec++
 			key := name + ":seconds-fit-duration"
